@@ -307,7 +307,6 @@ func runComments(c *core.Check) {
 		})
 }
 
-
 // runReviewed: documents that reviewers of the unchanged tree pointed out, each with a few neighbours. Every one of them is a
 // product the grammar families above could form with one more terminal; they are kept as a family of their own so that the
 // check names the defect (or its repair) on every run.
